@@ -23,12 +23,13 @@ import (
 )
 
 type expect struct {
-	conn  int
-	proto string
-	ja3   string
-	ja4   string
-	h2adm map[string]bool // admissible HTTP/2 fingerprints (nil for http/1.1)
-	h2any []string        // first/last admissible (for messages)
+	conn           int
+	proto          string
+	ja3            string
+	ja4            string
+	ja3KnownAbsent bool            // D9-class hello: the JA3 of this connection cannot be computed (known finding); absent is expected
+	h2adm          map[string]bool // admissible HTTP/2 fingerprints (nil for http/1.1)
+	h2any          []string        // first/last admissible (for messages)
 }
 
 func main() {
@@ -87,6 +88,10 @@ func main() {
 				if len(vals) == 1 && vals[0] == wantv {
 					return
 				}
+				if name == "X-Ja3-Fingerprint" && e.ja3KnownAbsent && len(vals) == 0 {
+					run.Add("requests_on_connections_without_ja3", 1)
+					return
+				}
 				cl := "wrong-" + strings.ToLower(name)
 				msg := ""
 				if len(vals) == 1 {
@@ -140,7 +145,12 @@ func client(run *verdict.Run, px *rig.Proxy, round, ci int, mu *sync.Mutex, want
 			chop = func(int) int { cm.Lock(); defer cm.Unlock(); return 1 + cr.Intn(40) }
 		}
 		local := &net.TCPAddr{IP: net.IPv4(127, 0, 0, byte(1+r.Intn(8)))}
-		uc, rc, err := rig.UTLSDial(px.Addr, spec, fmt.Sprintf("c%d.example", ci), chop, local)
+		sni := fmt.Sprintf("c%d.example", ci)
+		longSNI := ci%8 == 5
+		if longSNI { // a 253-byte server name: crypto/tls accepts it, the JA3 parser does not (known finding D9)
+			sni = strings.Repeat("a", 253-len(sni)-1) + "." + sni
+		}
+		uc, rc, err := rig.UTLSDial(px.Addr, spec, sni, chop, local)
 		if err != nil {
 			run.Add("handshake_retries", 1)
 			if attempt > 6 {
@@ -161,6 +171,9 @@ func client(run *verdict.Run, px *rig.Proxy, round, ci int, mu *sync.Mutex, want
 			return
 		}
 		e := &expect{conn: ci, proto: proto, ja3: p.JA3(), ja4: p.JA4().Value}
+		if cl := hello.Classify(rc.Bytes(), nil); cl.SNIListLenLoLtHi {
+			e.ja3KnownAbsent = true
+		}
 		nreq := 5 + r.Intn(16)
 		if proto == "h2" {
 			c, err := h2fp.Wrap(uc)
